@@ -166,7 +166,9 @@ fn acl_token(f: &Fabric) -> String {
 }
 
 fn cap_gkm(k: u64) -> Vec<(u16, u16)> {
-    (0..rs_matter::fabric::MAX_GROUPS_PER_FABRIC as u64).map(|i| ((k + i) as u16, 1 + (i % 2) as u16)).collect()
+    // the GroupKeyMap write handler accepts at most MAX_GROUP_KEYS_PER_FABRIC entries
+    let n = rs_matter::fabric::MAX_GROUP_KEYS_PER_FABRIC.min(rs_matter::fabric::MAX_GROUPS_PER_FABRIC) as u64;
+    (0..n).map(|i| ((k + i) as u16, 1 + (i % 2) as u16)).collect()
 }
 
 fn gkm_token(f: &Fabric) -> String {
@@ -747,6 +749,20 @@ fn run_census(_base: &Base, f: &[&str]) -> String {
     let st = DevState::new(Nets::new());
     let labels = Labels::new();
     let binds = Binds::new();
+    use rs_matter::dm::clusters::{icd_mgmt, time_sync};
+    use rs_matter::dm::clusters::icd_mgmt::ClusterHandler as _;
+    use rs_matter::dm::clusters::time_sync::ClusterHandler as _;
+    let icd = icd_mgmt::Icd::new(
+        rs_matter::sc::checkin::CheckInCounter::new(0, 10),
+        icd_mgmt::IcdModeConfig {
+            idle_mode_duration_s: 60,
+            active_mode_duration_ms: 300,
+            active_mode_threshold_ms: 500,
+            user_active_mode_trigger_hint: 0,
+            user_active_mode_trigger_instruction: "",
+        },
+    );
+    let tz = time_sync::TimeZoneStore::new();
     let crypto = test_only_crypto();
     let access = dev.kv(kv.clone());
     let net_ctl = NoopWirelessNetCtl::new(NetworkType::Wifi);
@@ -766,6 +782,15 @@ fn run_census(_base: &Base, f: &[&str]) -> String {
             .chain(
                 EpClMatcher::new(Some(APP_EP), Some(user_label::CLUSTER.id)),
                 Async(UserLabelHandler::new(Dataver::new_rand(&mut rand), APP_EP, &labels).adapt()),
+            )
+            // the two handlers that write keys of their own but take no part in a factory reset
+            .chain(
+                EpClMatcher::new(Some(0), Some(icd_mgmt::IcdMgmtHandler::CLUSTER.id)),
+                Async(icd_mgmt::IcdMgmtHandler::new(Dataver::new_rand(&mut rand), &icd).adapt()),
+            )
+            .chain(
+                EpClMatcher::new(Some(2), Some(time_sync::TimeSyncHandler::CLUSTER.id)),
+                Async(time_sync::TimeSyncHandler::new_with_time_zone(Dataver::new_rand(&mut rand), &tz).adapt()),
             ),
     );
     let dm = InteractionModel::new(&dev, &crypto, &buffers, handler, &access, &st);
